@@ -962,7 +962,11 @@ def _pfr_seal_and_rotkh(m: Model, obj, data: bytes, o: Oracle) -> None:
     import copy
 
     t = m.t
-    sealed = copy.deepcopy(obj).export(add_seal=True, draw=False)
+    twin = copy.deepcopy(obj)
+    sealed = twin.export(add_seal=True, draw=False)
+    # the seal is a property of one export, not of the object: the next export without it is the unsealed page again
+    again = twin.export(add_seal=False, draw=False)
+    o.check("computed", again == data, "seal_sticks", "%s: export() after export(add_seal=True) differs from the export before it (%s)" % (t, _diff(data, again)))
     if m.seal is not None:
         off, cnt = m.seal
         want = bytearray(data)
